@@ -41,6 +41,8 @@ CONSTANTS DevLimiterNoComplete,   \* Limiter::complete does not forward complete
           DevSortBreakStops,      \* a sorter's complete() stops draining at the first Break and skips the successor's complete()
           DevSortEmptyNoComplete, \* a sorter that holds no rows does not forward complete()
           DevSpaceCountsKeyless   \* a row without the sort key still uses up a slot of the top-N budget
+CONSTANT LogCalls                 \* TRUE: the machine records every call that crosses a stage boundary (st.log), as the jawk_verif hook of the
+                                  \* code does (src/verif_trace.rs); FALSE in the bounded models, where the log would only multiply states
 
 NoE == [op |-> "none"]
 NoTake == -1
@@ -88,7 +90,26 @@ Chain(cfg) ==
   \o <<[k |-> "print"]>>
 
 MaxSize(cfg) == IF cfg.take = NoTake THEN -1 ELSE cfg.skip + cfg.take
-StInit(cfg) == [uniq |-> <<>>,
+(***************************************************************************)
+(* The call log.  One event when a call of start / process / complete      *)
+(* enters stage i of the chain and one when it returns:                    *)
+(*   [ev, i, k, row, n, res]   ev: "start" "process" "complete" on entry,  *)
+(*   "started" "processed" "completed" on return; i: position in the chain *)
+(*   (1 = the stage the reader feeds); k: kind of the stage; row: Build of *)
+(*   the context handed in (process); n: titles so far (start); res: the   *)
+(*   decision "continue" / "break" (processed) or "ok"                     *)
+(***************************************************************************)
+CallEv(ev, i, k, row, n, res) == [ev |-> ev, i |-> i, k |-> k, row |-> row, n |-> n, res |-> res]
+Log(st, e) == IF LogCalls THEN [st EXCEPT !.log = Append(@, e)] ELSE st
+\* start(): every --select adds its title, group / merge start their successor with no titles
+RECURSIVE TitlesAt(_, _)
+TitlesAt(ch, i) == IF i = 1 THEN 0
+                   ELSE IF ch[i - 1].k = "select" THEN TitlesAt(ch, i - 1) + 1
+                   ELSE IF ch[i - 1].k \in {"grp", "mrg"} THEN 0 ELSE TitlesAt(ch, i - 1)
+StartLog(ch) == [j \in 1..Len(ch) |-> CallEv("start", j, ch[j].k, Nothing, TitlesAt(ch, j), "")]
+                \o [j \in 1..Len(ch) |-> CallEv("started", Len(ch) + 1 - j, ch[Len(ch) + 1 - j].k, Nothing, 0, "ok")]
+
+StInit(cfg) == [log |-> <<>>, uniq |-> <<>>,
                 srt |-> [n \in 1..NSorts(cfg) |-> [b |-> <<>>, space |-> IF n = 1 \/ DevTruncAll THEN MaxSize(cfg) ELSE -1]],
                 lim |-> [skipped |-> 0, passed |-> 0],
                 gk |-> <<>>, gv |-> <<>>, mrg |-> <<>>, out |-> <<>>, dec |-> "Continue"]
@@ -134,12 +155,16 @@ GroupAdd(st, key, row) ==
   ELSE [st EXCEPT !.gk = Append(@, key), !.gv = Append(@, <<row>>)]
 
 RECURSIVE Proc(_, _, _, _, _)
+RECURSIVE ProcBody(_, _, _, _, _)
 RECURSIVE SplitLoop(_, _, _, _, _, _, _)
 SplitLoop(cfg, ch, st, i, c, elems, j) ==
   IF j > Len(elems) THEN (IF DevSplitLast /\ elems # <<>> THEN st ELSE Cont(st))
   ELSE LET r == Proc(cfg, ch, st, i + 1, WithInput(c, elems[j])) IN
        IF r.dec = "Break" /\ ~DevSwallowBreak /\ ~DevSplitLast THEN r ELSE SplitLoop(cfg, ch, r, i, c, elems, j + 1)
 Proc(cfg, ch, st, i, c) ==
+  LET r == ProcBody(cfg, ch, Log(st, CallEv("process", i, ch[i].k, Build(c), 0, "")), i, c)
+  IN Log(r, CallEv("processed", i, ch[i].k, Nothing, 0, IF r.dec = "Break" THEN "break" ELSE "continue"))
+ProcBody(cfg, ch, st, i, c) ==
   LET sg == ch[i] IN
   CASE sg.k = "set" -> Proc(cfg, ch, st, i + 1, [c EXCEPT !.vars = cfg.set, !.macros = cfg.macros])
     [] sg.k = "split" -> LET v == Ev(sg.e, c) IN
@@ -180,7 +205,10 @@ ProcAll(cfg, ch, st, i, cs, j) == IF j > Len(cs) THEN Cont(st)
 (***************************************************************************)
 PlainCtx(v) == [input |-> v, parents |-> <<>>, results |-> <<>>, vars |-> <<>>, macros |-> <<>>, idx |-> 0, fidx |-> 0]
 RECURSIVE Fin(_, _, _, _)
+RECURSIVE FinBody(_, _, _, _)
 Fin(cfg, ch, st, i) ==
+  Log(FinBody(cfg, ch, Log(st, CallEv("complete", i, ch[i].k, Nothing, 0, "")), i), CallEv("completed", i, ch[i].k, Nothing, 0, "ok"))
+FinBody(cfg, ch, st, i) ==
   LET sg == ch[i] IN
   CASE sg.k \in {"set", "split", "filter", "select"} -> Fin(cfg, ch, st, i + 1)
     [] sg.k = "uniq" -> Fin(cfg, ch, [st EXCEPT !.uniq = <<>>], i + 1)
